@@ -28,7 +28,9 @@
      P:unset-expired   an unset cookie is not expired for a user agent (RFC 6265 5.3)
      P:unset-value     an unset cookie still has a value
      P:cookie-echo     the request API reads an echoed cookie as another value
+     P:cookie-refusal  set_cookie raised ValueError for an ASCII value, or accepted a non-ASCII one
    D-clauses (model detail): D:content-length, D:cookie-order, D:unset-window,
+     D:cookie-coding   the cookie value on the line is not CookieEncode(value) of RespHeadersOps
      D:unset-inherit   an unset cookie carries an attribute the call did not give and no earlier write left
 
    known: named deviations from the property, used for DIAGNOSIS only (all five were defects of falcon,
@@ -45,8 +47,8 @@ CONSTANT KnownSets      \* the deviation sets every trace is judged under ({{}} 
 
 Traces == JsonDeserialize(IOEnv.TRACE_FILE)
 
-VARIABLES tid, l, known, model, raw, jar, inh, times, verdict, dnote
-vars == <<tid, l, known, model, raw, jar, inh, times, verdict, dnote>>
+VARIABLES tid, l, known, model, raw, jar, inh, vals, times, verdict, dnote
+vars == <<tid, l, known, model, raw, jar, inh, vals, times, verdict, dnote>>
 Known == known
 OnlyProperty  == {{}}
 Deviations    == {"M", "Z", "E", "Q", "C"}
@@ -59,7 +61,7 @@ T  == Traces[tid]
 Ev == T.ev[l]
 
 Init == /\ tid \in 1..Len(Traces) /\ l = 1 /\ known \in KnownSets
-        /\ model = EmptyMap /\ raw = <<>> /\ jar = EmptyMap /\ inh = EmptyMap /\ times = EmptyMap
+        /\ model = EmptyMap /\ raw = <<>> /\ jar = EmptyMap /\ inh = EmptyMap /\ vals = EmptyMap /\ times = EmptyMap
         /\ verdict = "ok" /\ dnote = ""
 
 PairsMap(ps) == [k \in {p[1] : p \in Range(ps)} |-> (CHOOSE p \in Range(ps) : p[1] = k)[2]]
@@ -85,19 +87,25 @@ NewRaw == IF Ev.op = "append" /\ IsSC(Ev.n) THEN Append(raw, Ev.v) ELSE raw
 (* ---- cookies ---- *)
 EffCA(ca) == IF "Z" \in Known /\ ca.ma.kind \in {"int", "float"} /\ ca.ma.num = 0 /\ ca.ma.frac = 0
              THEN [ca EXCEPT !.ma = [kind |-> "none", num |-> 0, frac |-> 0]] ELSE ca
+(* set_cookie refuses a value that is not ASCII (documented ValueError): nothing is written *)
+Refused == Ev.op = "set_cookie" /\ CookieRefused(Ev.vcps)
 (* jar: what the last call for the name asked for (set: with "M" merged into the earlier write);
    inh: what an unset_cookie may inherit from the writes so far; inh[k].prev: the name was written before *)
 NewJar ==
-    CASE Ev.op = "set_cookie" ->
+    CASE Refused -> jar
+      [] Ev.op = "set_cookie" ->
             LET new == CookieOf(EffCA(Ev.ca), T.sd) IN
             Put(jar, Ev.ck, IF "M" \in Known /\ Ev.ck \in DOMAIN jar THEN MergeSet(jar[Ev.ck], new) ELSE new)
       [] Ev.op = "unset_cookie" -> Put(jar, Ev.ck, UnsetOf(Ev.ua))
       [] OTHER -> jar
 NewInh ==
-    CASE Ev.op = "set_cookie" -> Put(inh, Ev.ck, InhOfSet(NewJar[Ev.ck]))
+    CASE Refused -> inh
+      [] Ev.op = "set_cookie" -> Put(inh, Ev.ck, InhOfSet(NewJar[Ev.ck]))
       [] Ev.op = "unset_cookie" ->
             Put(inh, Ev.ck, InhOfUnset(IF Ev.ck \in DOMAIN inh THEN inh[Ev.ck] ELSE NoInh, Ev.ua, Ev.ck \in DOMAIN jar))
       [] OTHER -> inh
+(* vals: the value of the last set_cookie per name, as code points (for the coding D-clause) *)
+NewVals == IF Ev.op = "set_cookie" /\ ~Refused THEN Put(vals, Ev.ck, Ev.vcps) ELSE vals
 NewTimes == IF Ev.op = "unset_cookie" THEN Put(times, Ev.ck, <<Ev.t0, Ev.t1>>) ELSE times
 
 (* ---- the encoding law ---- *)
@@ -133,6 +141,7 @@ LawVerdict ==
 ExpectErr ==
     CASE Ev.op \in {"get", "set", "delete"} -> IsSC(Ev.n)
       [] Ev.op = "set_headers" -> AnySC(Ev.items)
+      [] Ev.op = "set_cookie" -> Refused
       [] OTHER -> FALSE
 ExpectRes ==
     CASE Ev.op = "get" -> IF IsSC(Ev.n) THEN <<>> ELSE Look(model, Ev.n.b)
@@ -140,7 +149,7 @@ ExpectRes ==
       [] OTHER -> <<>>
 CallVerdict ==
     IF Ev.exc # "" THEN "P:exception|" \o Ev.op
-    ELSE IF Ev.err # ExpectErr THEN "P:setcookie-guard|" \o Ev.op
+    ELSE IF Ev.err # ExpectErr THEN (IF Ev.op = "set_cookie" THEN "P:cookie-refusal|" ELSE "P:setcookie-guard|") \o Ev.op
     ELSE IF Ev.res # ExpectRes THEN "P:readback|" \o Ev.op
     \* (for append_link the new map value must be the old one, ", ", and the appended link-value: a Link header that
     \*  was rebuilt from anything else fails here, before the appended part is decoded)
@@ -226,6 +235,10 @@ EmitNote ==
         un == {k \in ks : jar[k].unset /\ \E i \in 1..Len(rest) : rest[i].name = k}
     IN
     IF Look(got, "content-length") # Look(WantPlain, "content-length") THEN "D:content-length"
+    \* the value on the line is the coding of RespHeadersOps (the echo clause is the P-clause; another coding that
+    \* the request side undoes would satisfy the property)
+    ELSE IF \E k \in ks : ~jar[k].unset /\ (\E i \in 1..Len(rest) : rest[i].name = k)
+                          /\ LineOf(rest, k).vcps # CookieEncode(vals[k]) THEN "D:cookie-coding"
     ELSE IF \E i \in 1..Len(raw) : i > Len(Ev.lines) \/ Ev.lines[i].text # raw[i] THEN "D:cookie-order"
     ELSE IF \E k \in un : ~InheritOK(LineOf(rest, k), jar[k], inh[k]) THEN "D:unset-inherit"
     ELSE IF \E k \in un : LET L == LineOf(rest, k) IN
@@ -238,16 +251,16 @@ Step ==
     /\ IF Ev.op = "emit"
          THEN /\ verdict' = EmitVerdict
               /\ dnote' = (IF dnote = "" /\ verdict' = "ok" THEN EmitNote ELSE dnote)
-              /\ UNCHANGED <<model, raw, jar, inh, times>>
+              /\ UNCHANGED <<model, raw, jar, inh, vals, times>>
          ELSE /\ verdict' = CallVerdict
-              /\ model' = NewModel /\ raw' = NewRaw /\ jar' = NewJar /\ inh' = NewInh /\ times' = NewTimes
+              /\ model' = NewModel /\ raw' = NewRaw /\ jar' = NewJar /\ inh' = NewInh /\ vals' = NewVals /\ times' = NewTimes
               /\ UNCHANGED dnote
     /\ l' = l + 1 /\ UNCHANGED <<tid, known>>
 
 Done ==
     /\ l >= 1 /\ (l > Len(T.ev) \/ verdict # "ok")
     /\ PrintT(<<"VERDICT", tid, IF verdict = "ok" /\ dnote # "" THEN dnote ELSE verdict, l - 1, KStr(known)>>)
-    /\ l' = -1 /\ UNCHANGED <<tid, known, model, raw, jar, inh, times, verdict, dnote>>
+    /\ l' = -1 /\ UNCHANGED <<tid, known, model, raw, jar, inh, vals, times, verdict, dnote>>
 
 Next == Step \/ Done
 Spec == Init /\ [][Next]_vars
